@@ -245,7 +245,8 @@ def run_oracle(ctx, exe, cases):
     rc, lines, err = ctx.run_lines([exe], path, timeout=1500)
     bad = []
     if rc != 0:
-        bad.append(('(oracle harness)', err[-400:], 'oracle harness crashed (exit %d)' % rc))
+        crashed = cases[len(lines)] if len(lines) < len(cases) else '(unknown)'
+        bad.append((crashed, err[-400:], 'the real code crashed / aborted (exit %d) on oracle case %s: %s' % (rc, crashed, err.strip()[-300:])))
     hist = collections.Counter()
     for c, out in zip(cases, lines):
         ctx.evaluations += 1
@@ -284,6 +285,13 @@ def documented_limitation(ctx, case, n, exen):
 
 # ----------------------------------------------------------------------------------------------- entry points
 ORACLES = ('oracle', 'oracle_std')
+
+
+def oseed(ctx, scenario, rep):
+    """scenario seed derived from (VERIF_SEED, scenario, repetition) by SHA-256: vlib's SplitMix64 streams of neighbouring
+    VERIF_SEED values are the same stream shifted by one draw, which would make the oracle cases nearly seed-independent"""
+    import hashlib
+    return int(hashlib.sha256(('%d:%s:%d' % (ctx.seed, scenario, rep)).encode()).hexdigest()[:8], 16) % 10 ** 6 + 1
 
 
 def build_all(ctx):
@@ -392,7 +400,7 @@ def run(ctx):
             if exe is None:
                 ctx.stage('build-%s_%s' % (name, c), False, getattr(ctx, 'last_cxx_error', '')); continue
             rcx, scen, _ = ctx.run_lines([exe, '--list'], os.devnull)
-            ocases = ['%s %d' % (sc, ctx.rng.range(1, 10 ** 6)) for sc in scen for rep in range(reps)]
+            ocases = ['%s %d' % (sc, oseed(ctx, sc, rep)) for sc in scen for rep in range(reps)]
             nocases += len(ocases)
             for (cs, out, why) in run_oracle(ctx, exe, ocases):
                 obad.append((cs, out, why, '%s_%s' % (name, c)))
